@@ -79,6 +79,9 @@ func countBetween(from ssa.Instruction, stop map[*ssa.BasicBlock]bool, match fun
 }
 
 func runC07(w *World, r *Report) {
+	// "names ... equal to the pack handed to the writer" under a name mapping: the table the writer maps with keeps the
+	// entries of every task of the target (C09-R10)
+	defer r.importRules(runC09, "C07-", map[string]bool{"C09-R10": true})
 	r.Rule("C07-R1", "call content", "ReplicateMessageParam: ChannelName<-channelName, StartPositions/EndPositions/BeginTs/EndTs<-msgPack's same-named fields, Base.ReplicateInfo.IsReplicate=true, MsgsBytes<-accumulator appended exactly once per iteration with the Marshal result of the current message (msg.Marshal(msg)), in order", 10)
 	r.Rule("C07-R2", "returned checkpoint", "result 0 on the success path is msgPack.EndPositions[len-1].MsgID", 1)
 	r.Rule("C07-R3", "errors are returned", "marshal error, completion error and base64 error: the branch `e != nil` returns e as the error result", 3)
